@@ -2,5 +2,5 @@
 # run all 20 checks (4 at a time), print verdict lines
 cd /verif
 tier=${1:-quick}
-ls lib/props | grep -o "c[0-9][0-9]" | sort -u | tr a-z A-Z | xargs -P 4 -I{} sh -c "./check {} --tier $tier > .work/all_{}.log 2>&1; echo {} exit=\$?"
+ls lib/props | grep -o "c[0-9][0-9]" | sort -u | tr a-z A-Z | xargs -P 4 -I{} sh -c "VERIF_NOLEAN=${VERIF_NOLEAN:-} ./check {} --tier $tier > .work/all_{}.log 2>&1; echo {} exit=\$?"
 grep -h -E "^VIOLATION|^KNOWN-FINDING|Traceback" .work/all_C*.log | cut -c1-220
